@@ -1,6 +1,8 @@
 package vc
 
 import (
+	"crypto/sha256"
+	"crypto/sha512"
 	"fmt"
 	"os"
 	"go/types"
@@ -465,6 +467,7 @@ func (e *Exec) BuildReplay(o *Obligation, script string) *ReplayPlan {
 			plan.Notes = append(plan.Notes, fmt.Sprintf("model extraction failed: %v", r))
 		}
 	}()
+	c.repairHashes(emitted, script, plan)
 	var names []string
 	for attempt := 0; attempt < 40; attempt++ {
 		c.restart = false
@@ -626,4 +629,89 @@ func (c *concretizer) computeStr(t *smt.Term) (string, bool) {
 		return sb.String(), true
 	}
 	return "", false
+}
+
+
+// repairHashes makes the model agree with the real hash functions: the solver
+// treats SHA-256 / SHA-384 as uninterpreted, so its model assigns arbitrary
+// digests.  For every hash application in the query the argument bytes of the
+// current model are fixed, the real digest is computed and asserted as the
+// value of the application, and the model is re-established.  When that is
+// unsatisfiable the model is left as it was (the replay will then simply not
+// confirm).
+func (c *concretizer) repairHashes(emitted []*smt.Term, script string, plan *ReplayPlan) {
+	var apps []*smt.Term
+	seen := map[int]bool{}
+	var walk func(t *smt.Term)
+	walk = func(t *smt.Term) {
+		if seen[t.ID] {
+			return
+		}
+		seen[t.ID] = true
+		if t.Op == "app" && (t.Name == "spec_SHA256" || t.Name == "spec_SHA384") && len(t.Args) == 1 && !smt.HasQuant(t) && len(smt.FreeBVars(t)) == 0 && symsDeclared(t, script) {
+			apps = append(apps, t)
+		}
+		for _, a := range t.Args {
+			walk(a)
+		}
+	}
+	for _, a := range emitted {
+		walk(a)
+	}
+	if len(apps) == 0 {
+		return
+	}
+	ctx := c.e.C
+	done := 0
+	for _, app := range apps {
+		arg := app.Args[0]
+		n := c.askBV(ctx.App("seq_len", smt.BV(64), arg), 1<<40)
+		if n > 4096 {
+			continue
+		}
+		// tie the named sequence to the data it stands for at every index (the
+		// query only instantiates its defining axiom where the proof needed it)
+		for _, sn := range c.e.seqNames {
+			if sn.t != arg {
+				continue
+			}
+			var link []string
+			link = append(link, fmt.Sprintf("(= %s #x%016x)", ctx.App("seq_len", smt.BV(64), arg).String(), n))
+			for i := uint64(0); i < n; i++ {
+				rt := sn.s.Read(ctx.BVC(i, 64))
+				if smt.HasQuant(rt) || !symsDeclared(rt, script) {
+					continue
+				}
+				link = append(link, fmt.Sprintf("(= %s %s)", ctx.App("seq_at8", smt.BV(8), arg, ctx.BVC(i, 64)).String(), rt.String()))
+			}
+			c.s.CheckWith(link)
+			break
+		}
+		buf := make([]byte, n)
+		var as []string
+		as = append(as, fmt.Sprintf("(= %s #x%016x)", ctx.App("seq_len", smt.BV(64), arg).String(), n))
+		for i := uint64(0); i < n; i++ {
+			at := ctx.App("seq_at8", smt.BV(8), arg, ctx.BVC(i, 64))
+			buf[i] = byte(c.askBV(at, 0))
+			as = append(as, fmt.Sprintf("(= %s #x%02x)", at.String(), buf[i]))
+		}
+		var dg []byte
+		if app.Name == "spec_SHA256" {
+			h := sha256.Sum256(buf)
+			dg = h[:]
+		} else {
+			h := sha512.Sum384(buf)
+			dg = h[:]
+		}
+		as = append(as, fmt.Sprintf("(= %s #x%016x)", ctx.App("seq_len", smt.BV(64), app).String(), uint64(len(dg))))
+		for i, b := range dg {
+			as = append(as, fmt.Sprintf("(= %s #x%02x)", ctx.App("seq_at8", smt.BV(8), app, ctx.BVC(uint64(i), 64)).String(), b))
+		}
+		if c.s.CheckWith(as) {
+			done++
+		}
+	}
+	if done > 0 {
+		plan.Notes = append(plan.Notes, fmt.Sprintf("%d hash application(s) of the counterexample were replaced by the real digest of their model input", done))
+	}
 }
